@@ -108,6 +108,7 @@ class Engine:
             self.tree2, _ = build(spec2 or [], flavour=self.fl, typed=typed, name="T2")
         else:
             self.tree2 = tree2
+        self.default_kind = getattr(self.tree, "DEFAULT_CHILD_TYPE", "child") if typed else None
         self.uids = Uids()
         self.real_of = {}  # model uid -> real node
         self.uid_of_real = {}  # id(real node) -> model uid
@@ -332,7 +333,7 @@ class Engine:
             if how in ("prepend_sibling", "append_sibling"):
                 kind = anchor.kind  # "Add a new node of same kind"
             elif kind is None:
-                kind = "child"
+                kind = self.default_kind
         nid_arg = opts.get("nid")
         nid = int(nid_arg) if nid_arg is not None else None  # documented as str|int, kept as int
         dup_nid = nid is not None and any(r.node_id == nid for r in walk(self.tree).pre)
@@ -407,9 +408,9 @@ class Engine:
         """Known finding D10a (defect model): the top node of a typed copy made
         without `kind=` gets the default kind instead of the source's kind."""
         if self.typed and "D10a" in self.known:
-            if src.kind != "child":
+            if src.kind != self.default_kind:
                 self.excluded["D10a"] += 1
-            return "child"
+            return self.default_kind
         return None
 
     def _src(self, src_tree, ref):
